@@ -437,6 +437,8 @@ def apply_havoc(self: Interp, st: State, mods):
         elif loc[0] == "cell":
             cell = st.heap[loc[1]]
             if isinstance(cell, Arr):
+                if cell.etype == "any" and isinstance(post, Arr) and post.etype != "any":
+                    cell = Arr(cell.shape, cell.elem, kind=cell.kind, etype=post.etype)
                 st.heap[loc[1]] = fresh_arr_like(cell, fresh_name("loopcell"), st, keep_shape=(cell.kind == "ndarray"))
             elif isinstance(cell, DictV):
                 nv = fresh_like(Ref(loc[1], "dict"), "loopdict", st)
@@ -731,9 +733,8 @@ def cm_exit(self: Interp, cm, tok, o: Outcome):
         lib.cm_exit(self, st, cm, o.kind == "raise")
         return
     c = tok.contract
-    pre = st.fork()
-    pre.env = dict(tok.env)
-    frame = Frame(tok.frame.module, tok.frame.cls, None, c, pre)
+    # old(...) in exit_ensures refers to the state at __enter__ (the generator's entry)
+    frame = Frame(tok.frame.module, tok.frame.cls, None, c, tok.frame.pre)
     with FrameCtx(self, st, frame, dict(tok.env)):
         for m in c.exit_modifies:
             self.havoc(m, st)
